@@ -27,27 +27,36 @@ NS = 'Pycel.Formula.'
 THEOREMS = [NS + t for t in (
     'C02_levels', 'C02_left_assoc', 'C02_table_is_spec', 'C02_parse', 'C02_amend', 'C02_parse_raw', 'C02_build', 'C02_parse_tree', 'C02_emit',
     'emit_current_counterexample', 'C02_literal_text', 'C02_literal', 'literal_current_counterexample',
-    'C02_number', 'number_current_counterexample', 'C02_literal_logical', 'C02_literal_error', 'evalPy_toPy', 'C02_sound', 'C02_sound_raw')]
+    'C02_number', 'number_current_counterexample', 'C02_literal_logical', 'C02_literal_error', 'evalPy_toPy', 'C02_sound', 'C02_sound_raw', 'C02_sound_ops')]
 DESIGN_REF = 'DESIGN.md §7 C02'
-RULE = ('surf: every tree of depth <= 2 over {neg, %, ^, *, +, &, <} x leaves {number, cell[, text]} rendered with the '
-        'minimal parentheses the levelled grammar needs, plus random trees to depth 5 over all 12 arithmetic/comparison '
-        'operators, function calls (0-3 args, missing args), all literal kinds, with random redundant parentheses, '
-        'white space, function-name case and, for a fraction, a needed parenthesis dropped (not well-formed: '
-        'code-following only); literal formulas over a hostile character pool; raw: pinned-test style strings, arrays, '
-        'white space and random character mutations; py: random token lists of the Python fragment. A case is '
-        'non-trivial when it has at least one operator or function call (surf/raw) or two tokens (py).')
+RULE = ('surf cases come in two parts per rendered formula: "sem" (governed; only well-formed trees in scope): CPython\'s '
+        'ast of python_code = meaning of the tree, and eval_formula(formula, cells) = the driver\'s value of the TREE under '
+        'opsSem (C10\'s Ops.fixup with the Python kernels; exact compare, ~-marked C-pow / >2^53 results within 1e-9, '
+        '? = function calls / pi: not decided); "code" (code-following): tokenizer items, rpn, ast, python tokens, '
+        'pyParse = CPython. Trees: every tree of depth <= 2 over {neg, %, ^, *, +, &, <} x leaves {number, cell[, text]} '
+        'with the cell value rotating over number/text/""/logical/blank/error, minimal and full parentheses; 19 '
+        'precedence templates (=1&A1+B2, =-A1^B2, =A1=B2=C3, =2^-A1%, =A1-B2-C3, ...) over all ordered pairs / sampled '
+        'triples of a 29-value mixed-type pool (signs, fractions, 0.1, numeric text incl. " 3 " "1e3" "-2", "", text, '
+        '"inf", "1_0", blank, logicals, errors); random trees to depth 5 over all 12 operators, calls (0-3 args, missing '
+        'args), all literal kinds incl. numeric-looking text, random redundant parentheses, white space, name case, '
+        'environments drawn from the pool, a fraction with a needed parenthesis dropped (code part only); literal '
+        'formulas over a hostile character pool incl. non-BMP; raw: pinned-test style strings, arrays, white space, '
+        'random character mutations; py: random token lists of the Python fragment. Exponent subtrees are kept small. '
+        'Non-trivial: at least one operator or call (surf/raw) or two tokens (py).')
 ASSUMPTIONS = [
     'openpyxl\'s tokenizer (character level) is outside the model: the model starts from its token stream, and for '
     'generated surface trees the harness checks that the rendered string tokenises to the stream the model assumes',
     'CPython\'s parser is modelled by pyParse (fragment only) and cross-checked against ast.parse on every run',
-    'operator run-time semantics belong to C10: values are compared only where the driver\'s small exact evaluator '
-    'decides them (numbers, integer powers, text concatenation of integers/text, numeric comparisons, SUM/MAX/MIN/ABS)',
+    'operator run-time semantics are C10\'s model (lean/Pycel/Model/Ops.lean, instantiated in Model/Formula/OpsSem.lean '
+    'and named by C02_sound_ops); function calls other than the cell read, the name pi, arithmetic on the TEXT '
+    '"TRUE"/"FALSE" (C10 known finding text-logical-as-number) and non-finite floats are not decided (value `?`)',
+    'results through C pow() or with an integer beyond 2^53 in play are compared with relative tolerance 1e-9 (`~`)',
     'function handlers needing the address layer (ROW, COLUMN, OFFSET, INDIRECT, SUBTOTAL) and reference operators '
     '(: space ,) are not generated in governed cases',
     'a NUL character inside a text literal is not generated (CPython rejects NUL in source; XML cell text has none)',
 ]
 TRUSTED = ['modelled, not verified: openpyxl tokenizer, CPython tokenizer/parser (cross-checked), networkx DiGraph']
-REQUIRED_BUCKETS = ['surf:wf', 'surf:nonwf', 'surf:neg-under-pow', 'surf:func', 'surf:literal-text',
+REQUIRED_BUCKETS = ['surf:wf', 'code:wf', 'code:nonwf', 'surf:neg-under-pow', 'surf:func', 'surf:literal-text',
                     'surf:literal-number', 'raw', 'raw:error', 'py', 'py:reject']
 EXHAUSTIVE = False
 EXPLANATION = ('Theorems (Props/C02.lean) hold for every surface expression / tree / character list: the live precedence '
@@ -563,7 +572,7 @@ _IMPL_CACHE = {}
 
 
 def impl(c):
-    key = repr(c)
+    key = repr({k: v for k, v in c.items() if k != 'part'})     # the 'sem' and 'code' parts share one observation
     if key not in _IMPL_CACHE:
         if len(_IMPL_CACHE) > 4:
             _IMPL_CACHE.clear()
@@ -620,9 +629,15 @@ def model_lines(c):
     if k == 'surf':
         s = enc_surf(c['s'])
         env = c.get('env') or {}
-        return ['c02 surf ' + ' '.join(s),
-                f'c02 val {len(env)} ' + ' '.join(f'{cps(a)}={v}' for a, v in env.items()) +
-                (' ' if env else '') + ' '.join(s)]
+        surf = 'c02 surf ' + ' '.join(s)
+        val = f'c02 val {len(env)} ' + ' '.join(f'{cps(a)}={v}' for a, v in env.items()) + \
+            (' ' if env else '') + ' '.join(s)
+        part = c.get('part', 'all')
+        if part == 'code':
+            return [surf]
+        if part == 'sem':
+            return [surf, val]
+        return [surf, val, 'ping']
     if k == 'raw':
         from pycel.excelformula import Tokenizer
         try:
@@ -639,14 +654,29 @@ def model_lines(c):
 
 
 def governed(c):
-    if c['k'] == 'surf':
+    # the property decides the MEANING of a well-formed formula (python_code read by Python's grammar, the value); how
+    # the code is spelled (tokens, rpn, python tokens: part 'code') is the implementation's business
+    if c['k'] == 'surf' and c.get('part', 'all') != 'code':
         return wf(c['s']) and in_scope(c['s'])
     return False
 
 
-def _split_model(m):
-    surf, _, val = m.partition('|')
-    return [f.strip() for f in surf.split(' ; ')], val
+def value_diff(ival, mval):
+    """None when the implementation's value agrees with the driver's (`?` = not decided by the model, `~` =
+    approximate: numbers within 1e-9 relative, anything else derived from an approximate number is not compared)"""
+    if mval == '?':
+        return None
+    if mval.startswith('~'):
+        m = mval[1:]
+        if m.startswith('n:') and ival.startswith('n:'):
+            return None if core.num_close(ival, m, rel=1e-9) else \
+                f'value: implementation {core.show(ival)} model ~{core.show(m)}'
+        if m.startswith('n:') != ival.startswith('n:') and (m.startswith('n:') or ival.startswith('n:')):
+            if m.startswith('e:') or ival.startswith('e:'):
+                return None          # overflow / domain edge of an approximate number
+            return f'value: implementation {core.show(ival)} model ~{core.show(m)}'
+        return None
+    return None if ival == mval else f'value: implementation {core.show(ival)} model {core.show(mval)}'
 
 
 def same(impl_out, model_out):
@@ -659,24 +689,29 @@ def explain(impl_out, model_out, case=None):
         return 'no model output'
     if ' ; ' not in model_out:
         return None if impl_out == model_out else 'answers differ'
-    mf, mval = _split_model(model_out)
+    parts = model_out.split('|')
+    mf = [f.strip() for f in parts[0].split(' ; ')]
     if len(mf) == 8:          # surf
+        part = {1: 'code', 2: 'sem', 3: 'all'}[len(parts)]
+        mval = parts[1] if len(parts) > 1 else '?'
         isurf, _, ival = impl_out.partition('|')
         f = [x.strip() for x in isurf.split(' ; ')]
         if len(f) != 6:
             return 'implementation output malformed'
         wf_flag, mtoks, mrpn, mtree, mpy, mpp, mtopy, th = mf
-        for name, a, b in (('tokens', f[0], mtoks), ('rpn', f[1], mrpn), ('tree', f[2], mtree),
-                           ('python tokens', f[3], mpy), ('python ast', f[4], mpp)):
-            if a != b:
-                return f'{name}: implementation {a!r} model {b!r}'
-        if wf_flag == 'wf:1':
-            if th != 'th:1111':
-                return f'model-internal agreement flags {th} on a well-formed tree'
+        if part in ('sem', 'all') and wf_flag == 'wf:1':
+            d = value_diff(ival, mval)
+            if d:
+                return d
             if f[4] != mtopy:
                 return f'python ast {f[4]!r} is not the meaning of the tree {mtopy!r}'
-        if wf_flag == 'wf:1' and mval != '?' and mval != ival and not core.num_close(ival, mval, rel=1e-9):
-            return f'value: implementation {core.show(ival)} model {core.show(mval)}'
+            if th != 'th:1111':
+                return f'model-internal agreement flags {th} on a well-formed tree'
+        if part in ('code', 'all'):
+            for name, a, b in (('tokens', f[0], mtoks), ('rpn', f[1], mrpn), ('tree', f[2], mtree),
+                               ('python tokens', f[3], mpy), ('python ast', f[4], mpp)):
+                if a != b:
+                    return f'{name}: implementation {a!r} model {b!r}'
         return None
     if len(mf) == 4:          # raw
         f = [x.strip() for x in impl_out.split(' ; ')]
@@ -760,6 +795,7 @@ def oracles(results):
         if c['k'] != 'surf' or not governed(c):
             continue
         isurf, _, ival = r.impl.partition('|')
+
         f = [x.strip() for x in isurf.split(' ; ')]
         if len(f) != 6:
             yield c, f'implementation failed on a well-formed formula: {r.impl[:120]}'
@@ -806,6 +842,8 @@ def nontrivial(c):
 
 
 def bucket(c):
+    if c['k'] == 'surf' and c.get('part') == 'code':
+        return 'code:wf' if wf(c['s']) and in_scope(c['s']) else 'code:nonwf'
     if c['k'] == 'surf':
         s = c['s']
         if not (wf(s) and in_scope(s)):
@@ -845,9 +883,21 @@ ENV0 = {'A1': 'n:3/1', 'B2': 'n:-2/1', 'C3': 'n:1/2'}
 TEXT_POOL = ['', 'a', 'x y', 'a"b', '"', '""', 'a\\b', '\\', 'a\\', '\\\\', '\\n', 'a\nb', '\n', '\r\n', 'a\tb', '{}',
              '{0}', '{x!r}', '%s', "it's", "'", '\\"', '"\\', 'é', '日本', '#N/A', '_C_("A1")', '_R_', '\\x41', '\\u0041',
              '\\N{DASH}', '\\101', '\\\n', 'TRUE', '1', '-', '=', 'a,b', '(', ')', ' ', '\x0b', '\x7f', 'a""b', '\\t',
-             '\\a', '\\q', '\\0']
+             '\\a', '\\q', '\\0', '😀', 'a𝄞b', '\U00020000']
 NUM_POOL = ['0', '1', '2', '7', '10', '12', '100', '0.5', '1.5', '.5', '5.', '1E3', '1.5E+3', '2e-2', '1E+02', '007',
             '00', '010', '0.10', '00.5', '0E0', '3.14159', '1234567890', '09', '1e0']
+
+
+# cell values of mixed type (after C10's pool): signs, fractions, numeric text, "", text, blank, logicals, errors.
+# Magnitudes stay small (values are used as exponents); the TEXT "TRUE"/"FALSE" is left to C10 (known finding there).
+VAL_POOL = ['n:0/1', 'n:1/1', 'n:-1/1', 'n:2/1', 'n:3/1', 'n:-8/1', 'n:10/1', 'n:1/2', 'n:-1/2', 'n:3/2', 'n:-5/2',
+            'n:3602879701896397/36028797018963968', 's:51', 's:32,51,32', 's:49,46,53', 's:45,50', 's:49,101,51', 's:',
+            's:97', 's:65', 's:97,98,99', 's:105,110,102', 's:49,95,48', 'z', 'b:1', 'b:0', 'e:na', 'e:div0', 'e:value']
+SMALL_VALS = ['n:3/1', 'n:-2/1', 'n:1/2', 's:52', 's:120', 's:', 'b:1', 'z', 'e:na', 'n:0/1']
+
+
+def random_env(rng):
+    return {'A1': rng.choice(VAL_POOL), 'B2': rng.choice(VAL_POOL), 'C3': rng.choice(VAL_POOL)}
 
 
 def exhaustive_trees(depth, leaves, unary, binary):
@@ -869,10 +919,12 @@ def exhaustive_trees(depth, leaves, unary, binary):
 def random_tree(rng, depth, leafs=None):
     def leaf():
         r = rng.random()
-        if r < 0.45:
-            return ['N', rng.choice(['0', '1', '2', '3', '4', '5', '10', '0.5', '2.5', '007', '1E2', '.5'])]
-        if r < 0.75:
+        if r < 0.40:
+            return ['N', rng.choice(['0', '1', '2', '3', '4', '5', '10', '0.5', '2.5', '007', '1E2', '.5', '0.1'])]
+        if r < 0.72:
             return ['R', rng.choice(['A1', 'B2', 'C3', '$A$1', 'B$2'])]
+        if r < 0.80:
+            return ['T', rng.choice(['3', ' 3 ', '1.5', '-2', '1e1', '', 'a', 'A', 'abc', '0', 'inf', '1_0', '.5'])]
         if r < 0.87:
             return ['T', rng.choice(TEXT_POOL)]
         if r < 0.93:
@@ -885,7 +937,7 @@ def random_tree(rng, depth, leafs=None):
         return ['U', random_tree(rng, depth - 1)]
     if r < 0.27:
         return ['%', random_tree(rng, depth - 1)]
-    if r < 0.40:
+    if r < 0.33:
         name = rng.choice(PLAIN_FUNCS)
         n = 0 if name.upper() in ('PI', 'TRUE', 'FALSE') else rng.choice([1, 1, 2, 2, 3])
         args = [random_tree(rng, depth - 1) for _ in range(n)]
@@ -961,46 +1013,93 @@ def random_pyexpr(rng, depth):
     return random_pyexpr(rng, depth - 1) + [op] + random_pyexpr(rng, depth - 1)
 
 
-def surf_case(s, ws=None, env=None):
-    return {'k': 'surf', 's': s, 'ws': ws, 'env': env if env is not None else ENV0}
+def surf_case(s, ws=None, env=None, part='sem'):
+    return {'k': 'surf', 's': s, 'ws': ws, 'env': env if env is not None else ENV0, 'part': part}
+
+
+def both(s, ws=None, env=None):
+    """the meaning part (governed; only for well-formed trees in scope) and the code-shape part of one formula"""
+    if wf(s) and in_scope(s):
+        yield surf_case(s, ws, env, 'sem')
+    yield surf_case(s, ws, env, 'code')
+
+
+TEMPLATES = [      # precedence / associativity shows as a VALUE with mixed-type operands
+    ['B', 'concat', ['N', '1'], ['B', 'add', ['R', 'A1'], ['R', 'B2']]],                 # =1&A1+B2
+    ['B', 'concat', ['B', 'add', ['R', 'A1'], ['N', '2']], ['R', 'B2']],                 # =A1+2&B2
+    ['B', 'pow', ['U', ['R', 'A1']], ['R', 'B2']],                                       # =-A1^B2
+    ['B', 'eq', ['B', 'eq', ['R', 'A1'], ['R', 'B2']], ['R', 'C3']],                     # =A1=B2=C3
+    ['B', 'lt', ['B', 'lt', ['R', 'A1'], ['R', 'B2']], ['R', 'C3']],                     # =A1<B2<C3
+    ['B', 'pow', ['N', '2'], ['%', ['U', ['R', 'A1']]]],                                 # =2^-A1%
+    ['B', 'sub', ['R', 'A1'], ['B', 'sub', ['R', 'B2'], ['R', 'C3']]],                   # =A1-(B2-C3)
+    ['B', 'sub', ['B', 'sub', ['R', 'A1'], ['R', 'B2']], ['R', 'C3']],                   # =A1-B2-C3
+    ['B', 'div', ['B', 'div', ['R', 'A1'], ['R', 'B2']], ['R', 'C3']],                   # =A1/B2/C3
+    ['B', 'div', ['R', 'A1'], ['B', 'mul', ['R', 'B2'], ['R', 'C3']]],                   # =A1/(B2*C3)
+    ['B', 'pow', ['B', 'pow', ['R', 'A1'], ['R', 'B2']], ['N', '2']],                    # =A1^B2^2
+    ['B', 'add', ['R', 'A1'], ['B', 'mul', ['R', 'B2'], ['R', 'C3']]],                   # =A1+B2*C3
+    ['B', 'mul', ['U', ['R', 'A1']], ['%', ['R', 'B2']]],                                # =-A1*B2%
+    ['B', 'ge', ['B', 'concat', ['R', 'A1'], ['R', 'B2']], ['B', 'add', ['R', 'C3'], ['N', '1']]],   # =A1&B2>=C3+1
+    ['U', ['%', ['P', ['B', 'add', ['R', 'A1'], ['R', 'B2']]]]],                         # =-(A1+B2)%
+    ['B', 'ne', ['U', ['R', 'A1']], ['B', 'concat', ['R', 'B2'], ['T', '']]],            # =-A1<>B2&""
+    ['B', 'concat', ['E', 'na'], ['T', 'x']], ['B', 'concat', ['T', 'x'], ['E', 'div0']],
+    ['B', 'concat', ['B', 'concat', ['T', 'a'], ['T', 'b']], ['E', 'ref']],
+]
 
 
 def cases(tier, rng):
     thorough = tier == 'thorough'
-    # --- literals (text pool: quotes, backslashes, newlines, braces; numbers incl. leading zeros, exponents)
+    # --- literals (text pool: quotes, backslashes, newlines, braces, non-BMP; numbers incl. leading zeros, exponents)
     for s in TEXT_POOL:
-        yield surf_case(['T', s])
-        yield surf_case(['B', 'concat', ['T', s], ['T', 'z']])
-        yield surf_case(['F', 'LEN', [['T', s]]])
+        yield from both(['T', s])
+        yield from both(['B', 'concat', ['T', s], ['T', 'z']])
+        yield from both(['F', 'LEN', [['T', s]]])
+        yield from both(['B', 'eq', ['T', s], ['R', 'A1']], env={'A1': core.enc_text(s)})
     for _ in range(400 if thorough else 60):
         n = rng.randint(1, 6)
-        s = ''.join(rng.choice(['a', '"', '\\', '\n', '\r', '{', '}', 'n', 't', ' ', "'", '0', 'x', 'é', '\t']) for _ in range(n))
-        yield surf_case(['T', s])
+        s = ''.join(rng.choice(['a', '"', '\\', '\n', '\r', '{', '}', 'n', 't', ' ', "'", '0', 'x', 'é', '\t', '😀', '𝄞'])
+                    for _ in range(n))
+        yield from both(['T', s])
     for t in NUM_POOL:
-        yield surf_case(['N', t])
-        yield surf_case(['B', 'add', ['N', t], ['N', '1']])
-        yield surf_case(['U', ['N', t]])
+        yield from both(['N', t])
+        yield from both(['B', 'add', ['N', t], ['N', '1']])
+        yield from both(['U', ['N', t]])
     for b in (0, 1):
-        yield surf_case(['L', b])
+        yield from both(['L', b])
     for e in sorted(core.TAG_ERRS):
-        yield surf_case(['E', e])
-        yield surf_case(['B', 'add', ['E', e], ['N', '1']])
-    # --- exhaustive small scope, minimal parentheses and fully parenthesised
+        yield from both(['E', e])
+        yield from both(['B', 'add', ['E', e], ['N', '1']])
+        yield from both(['B', 'concat', ['E', e], ['T', 'x']])
+        yield from both(['B', 'concat', ['T', 'x'], ['E', e]])
+    # --- precedence templates over all ordered pairs / sampled triples of the mixed-type pool
+    pool = VAL_POOL if thorough else VAL_POOL[::2] + ['z', 'b:1', 'e:na']
+    for t in TEMPLATES:
+        refs = sorted({x[1] for x in _walk(t) if x[0] == 'R'})
+        if not refs:
+            yield surf_case(minimal_parens(erase(t)))
+        elif len(refs) <= 2:
+            for a in pool:
+                for b in (pool if len(refs) == 2 else [pool[0]]):
+                    yield surf_case(minimal_parens(erase(t)), env={'A1': a, 'B2': b, 'C3': 'n:1/1'})
+        else:
+            for _ in range(len(pool) * len(pool)):
+                yield surf_case(minimal_parens(erase(t)), env={'A1': rng.choice(pool), 'B2': rng.choice(pool),
+                                                                'C3': rng.choice(pool)})
+    # --- exhaustive small scope, minimal parentheses and fully parenthesised, cell value rotating over the types
     leaves = [['N', '2'], ['R', 'A1']] + ([['T', 'x']] if thorough else [])
     binary = ['pow', 'mul', 'add', 'concat', 'lt']
     trees = exhaustive_trees(2, leaves, ['U', '%'], binary)
     for i, t in enumerate(trees):
-        yield surf_case(minimal_parens(t))
+        env = {'A1': SMALL_VALS[i % len(SMALL_VALS)], 'B2': 'n:-2/1', 'C3': 'n:1/2'}
+        yield from both(minimal_parens(t), env=env)
         if thorough or i % 5 == 0:
-            yield surf_case(full_parens(t))
+            yield from both(full_parens(t), env=env)
     if thorough:
         # depth 3 over the classes that interact (neg, %, ^, *, +) on one leaf kind, sampled down
         trees3 = exhaustive_trees(2, [['N', '2'], ['R', 'B2']], ['U', '%'], ['pow', 'div', 'sub', 'ge'])
-        for t in trees3:
-            yield surf_case(minimal_parens(t))
-    # --- random trees: all operators, functions, literals, redundant parentheses, white space, dropped parentheses
-    envs = [ENV0, {'A1': 'n:0/1', 'B2': 'n:5/1', 'C3': 'n:-1/1'}, {'A1': 'n:2/1', 'B2': 'z', 'C3': 's:52'},
-            {'A1': 'b:1', 'B2': 'e:div0', 'C3': 's:120'}]
+        for i, t in enumerate(trees3):
+            yield from both(minimal_parens(t), env={'A1': 'n:3/1', 'B2': SMALL_VALS[i % len(SMALL_VALS)], 'C3': 'n:1/2'})
+    # --- random trees: all operators, functions, literals, redundant parentheses, white space, dropped parentheses,
+    #     environments drawn from the mixed-type pool
     for i in range(12000 if thorough else 1400):
         t = random_tree(rng, rng.randint(1, 5 if thorough else 4))
         r = rng.random()
@@ -1010,14 +1109,16 @@ def cases(tier, rng):
             s = minimal_parens(t)
             if r < 0.5:
                 s = extra_parens(s, rng)
-        yield surf_case(s, ws=rng.randrange(1 << 30) if rng.random() < 0.5 else None, env=rng.choice(envs))
+        yield from both(s, ws=rng.randrange(1 << 30) if rng.random() < 0.5 else None, env=random_env(rng))
     # unary minus against every operator on either side (the class the recon defect lives in)
     for op in XL2PY:
         for l, r in ((['U', ['N', '2']], ['N', '3']), (['N', '3'], ['U', ['N', '2']]),
                      (['U', ['U', ['R', 'A1']]], ['N', '2']), (['U', ['%', ['N', '2']]], ['N', '2']),
-                     (['%', ['U', ['N', '2']]], ['U', ['N', '2']])):
-            yield surf_case(minimal_parens(['B', op, l, r]))
-            yield surf_case(['P', ['B', op, ['P', l] if l[0] == 'U' else l, ['P', r] if r[0] == 'U' else r]])
+                     (['%', ['U', ['N', '2']]], ['U', ['N', '2']]),
+                     (['U', ['P', ['B', 'add', ['N', '1'], ['N', '2']]]], ['N', '2']),
+                     (['U', ['F', 'SUM', [['N', '1'], ['N', '2']]]], ['N', '2'])):
+            yield from both(minimal_parens(['B', op, l, r]))
+            yield from both(['P', ['B', op, ['P', l] if l[0] == 'U' else l, ['P', r] if r[0] == 'U' else r]])
     # --- raw strings
     for f in RAW_FIXED:
         yield {'k': 'raw', 'f': f, 'bad': _raw_bad(f)}
